@@ -1,7 +1,7 @@
 # C06 spec (see tools/props.py)
 SPEC = {
         "ready": True,
-        "sources": ["c06.cpp", "c06_f.cpp", "c06_d.cpp"],
+        "sources": ["c06.cpp", "c06_f.cpp", "c06_d.cpp", "c06_dirty.cpp"],
         "lib": [],
         "technique": "exhaustive enumeration of integer matrix lattices x power-of-two row and column scalings against the exact rational inverse "
                      "(adjugate / determinant in __int128); one-ulp perturbations of the affine last column; single entries replaced by +-2^-k "
@@ -19,7 +19,7 @@ SPEC = {
                       "that ignores magnitude loses all accuracy there; nearly singular matrices must stay within the bound while 8 cond eps <= 1/4 and "
                       "finite up to cond < 1/eps^2); and matrices with a non-zero determinant whose exact cofactor/determinant quotients "
                       "reach 2^(emax+1): the determinant-based forms must return exactly the identity there, a finite accurate inverse when every "
-                      "exact entry is below max/4, and one of the two in between.",
+                      "exact entry is below max/4, and one of the two in between. Added for the stale-object class of seeded changes: the in-place forms on exactly singular matrices holding distinct primes in every slot (zero row / zero column / duplicated row; general and affine with a prime translation row) must leave exactly the identity in every slot, and the value forms assigned to destinations pre-filled with primes / NaN likewise.",
         "level_note": "Bounded: the accuracy statement is decided on the enumerated lattices and scalings (condition numbers up to a few "
                       "hundred on the plain lattices; graded scalings and tiny entries reach 2^60 and more, where the bound is correspondingly "
                       "loose), not for arbitrary ill-conditioned floats; the overflow guard (mr > |cofactor|) is decided on operands whose cofactors "
@@ -32,7 +32,7 @@ SPEC = {
                 "integer input: singular; |det(M)| >= 1 / < 1 (the two scaling branches, per dimension); affine last column (fast path); "
                 "singular with a provable exact zero pivot for Gauss-Jordan; affine last column perturbed by one ulp / holding -0; rows or columns "
                 "graded by different powers of two; a zero entry replaced by 2^-k with det(A) != 0 / == 0; exact quotient >= 2^(emax+1), "
-                "< max/4, in between, per dimension and for the affine path ('.generic' classes excluded)",
+                "< max/4, in between, per dimension and for the affine path; singular matrix with primes in every other slot (zero row / zero column / duplicated row, affine with non-zero translation row) ('.generic' classes excluded)",
         "assumptions": ["long double has a 64-bit significand (x86-64)",
                         "default build configuration: g++ -O2 -std=c++14, no FMA contraction, no -ffast-math"],
     }
